@@ -233,11 +233,11 @@ Section ToTree.
     reflexivity.
   Qed.
 
-  (* pairwise non-overlapping sibling names: no message is matched by two
-     ports of one table (C04's side condition) *)
+  (* pairwise non-overlapping sibling names: no message (NUL- and ':'-free
+     address) is matched by two ports of one table (C04's side condition) *)
   Definition table_disjoint (l : list sport) : Prop :=
     forall j j' q q' m ty pe pe',
-      nth_error l j = Some q -> nth_error l j' = Some q' ->
+      nth_error l j = Some q -> nth_error l j' = Some q' -> addr_ok m ->
       rtosc_match (sname q) m ty = Some (true, Some pe) ->
       rtosc_match (sname q') m ty = Some (true, Some pe') -> j = j'.
 
@@ -310,7 +310,7 @@ Section ToTree.
         * rewrite nth_error_map', E. reflexivity.
         * intros n' name' sub' Hn' En' pe' Hm'. rewrite nth_error_map' in En'.
           destruct (nth_error l n') as [q'|] eqn:E'; [|discriminate]. cbn [option_map] in En'. inversion En'; subst.
-          apply Hn'. symmetry. eapply (Hd j n' _ q' (x ++ a') ty a' pe' E E'); [exact Hm | exact Hm'].
+          apply Hn'. symmetry. eapply (Hd j n' _ q' (x ++ a') ty a' pe' E E' Haddr); [exact Hm | exact Hm'].
       + unfold to_tree. cbn [subs_of]. rewrite nth_error_map', E. cbn [option_map]. rewrite to_tree_port_sub.
         rewrite Hs. apply IH; [exact Hd' | apply dok_all; exact Hall | exact H].
     - (* the leaf *)
@@ -318,12 +318,13 @@ Section ToTree.
       rewrite Forall_forall in Hl. pose proof (Hl _ (nth_error_In _ _ E)) as Hq. cbn [dok] in Hq.
       destruct Hq as [Hw Hls].
       pose proof (leaf_matches sg args ty a Hw Hls Hadm Ha) as Hm.
+      assert (Haddr : addr_ok a) by (eapply Forall_impl; [|exact Hch]; intros ch Hc'; apply Hc').
       cbn [TreeProofs.addressed]. exists (flatten sg ++ args), false, []. split.
       + unfold sole_match, to_tree. cbn [tab_of mk_table t_ports]. split; [|split; [exact Hm|]].
         * rewrite nth_error_map', E. reflexivity.
         * intros n' name' sub' Hn' En' pe' Hm'. rewrite nth_error_map' in En'.
           destruct (nth_error l n') as [q'|] eqn:E'; [|discriminate]. cbn [option_map] in En'. inversion En'; subst.
-          apply Hn'. symmetry. eapply (Hd j n' _ q' a ty [] pe' E E'); [exact Hm | exact Hm'].
+          apply Hn'. symmetry. eapply (Hd j n' _ q' a ty [] pe' E E' Haddr); [exact Hm | exact Hm'].
       + unfold to_tree. cbn [subs_of]. rewrite nth_error_map', E. reflexivity.
   Qed.
 
@@ -434,7 +435,7 @@ Definition one_id (l : list sport) : Z := Z.of_nat (length l).
 
 Lemma singleton_disjoint q : table_disjoint [q].
 Proof.
-  intros j j' q1 q2 m ty pe pe' E1 E2 _ _.
+  intros j j' q1 q2 m ty pe pe' E1 E2 _ _ _.
   destruct j as [|j]; [|destruct j; discriminate]. destruct j' as [|j']; [reflexivity | destruct j'; discriminate].
 Qed.
 
